@@ -9,6 +9,7 @@
 namespace
 {
 void op_first_log_then_known(World& W, int point);
+void op_pair_then_tick(World& W, int point);
 
 void burst_ops(World& W, int point)
 {
@@ -59,8 +60,9 @@ void burst_ops(World& W, int point)
       }
       continue;
     }
-    switch (c.weighted({6, 3, 2, 2, 2, 2, (is_prop("C05") || is_prop("C06")) ? 3u : 0u, is_prop("C16") ? 3u : 0u}))
+    switch (c.weighted({6, 3, 2, 2, 2, 2, (is_prop("C05") || is_prop("C06")) ? 3u : 0u, is_prop("C16") ? 3u : 0u, is_prop("C05") ? 7u : 0u}))
     {
+    case 8: op_pair_then_tick(W, point); break;
     case 0: op_log(W, pick_worker(W), true, point); break;
     case 1: op_tick(W); break;
     case 2:
@@ -95,6 +97,25 @@ void op_first_log_then_known(World& W, int point)
   W.log_op("Tick(g+)");
 }
 
+// generator aimed at "enqueues between the backend's reads of individual queues": two (or three) different known threads log
+// one after the other, then more than the grace period passes, all inside one yield point of the backend's pass
+void op_pair_then_tick(World& W, int point)
+{
+  std::vector<int> idle;
+  for (size_t k = 0; k < W.workers.size(); ++k)
+    if (W.workers[k].alive && !worker_busy(W, static_cast<int>(k))) idle.push_back(static_cast<int>(k));
+  if (idle.size() < 2) { int nw = op_start_thread(W); if (nw >= 0) idle.push_back(nw); }
+  if (idle.size() < 2) return;
+  // a generated order over the idle workers (rotation + optional reversal)
+  unsigned rot = W.c->pick(static_cast<uint32_t>(idle.size()));
+  std::rotate(idle.begin(), idle.begin() + rot, idle.end());
+  if (W.c->pick(2) == 1) std::reverse(idle.begin(), idle.end());
+  unsigned n = 2 + W.c->pick(2);
+  for (unsigned k = 0; k < n && k < idle.size() && !W.r->failed; ++k) op_log(W, idle[k], true, point, -1, -1, true);
+  sim::core().vclock += W.grace_ns + W.c->pick(3);
+  W.log_op("Tick(g..g+2)");
+}
+
 void sim_yield(int point)
 {
   World* W = g_world;
@@ -102,6 +123,15 @@ void sim_yield(int point)
   if (point >= 1 && point <= 5) ++W->yields[point];
   if (point == 5) { W->idle_seen = true; W->exited_since_idle = 0; }
   if (W->draining) return;
+  if (point == 2 && W->force_pair_at_y2_hit > 0 && ++W->y2_hits_in_poll == W->force_pair_at_y2_hit)
+  {
+    W->force_pair_at_y2_hit = 0;
+    W->cur_point = 2;
+    ++W->bursts_at[2];
+    op_pair_then_tick(*W, 2);
+    W->cur_point = 0;
+    return;
+  }
   burst_ops(*W, point);
 }
 
@@ -109,6 +139,7 @@ void op_poll(World& W, bool bursts)
 {
   W.in_poll = true;
   W.idle_seen = false;
+  W.y2_hits_in_poll = 0;
   W.burst_budget = bursts ? 8 : 0;
   ++W.polls;
   if (bursts) W.log_op("Poll");
@@ -352,8 +383,19 @@ void top_level_op(World& W, Choices& c)
     }
     return;
   }
-  switch (c.weighted({5, 8, 2, 2, 2, 3, 1, is_prop("C09") ? 2u : 0u, is_prop("C16") ? 3u : 0u}))
+  switch (c.weighted({5, 8, 2, 2, 2, 3, 1, is_prop("C09") ? 2u : 0u, is_prop("C16") ? 3u : 0u, is_prop("C05") ? 2u : 0u}))
   {
+  case 9:
+    // directed: the backend is idle (every queue empty), then during ONE pass, between the reads of two queues, several
+    // threads log and more than the grace period passes
+    W.log_op("DrainIdle");
+    if (drain(W))
+    {
+      W.force_pair_at_y2_hit = 1 + static_cast<int>(c.pick(static_cast<uint32_t>(std::max(1, alive_count(W)))));
+      op_poll(W, true);
+      W.force_pair_at_y2_hit = 0;
+    }
+    break;
   case 0: op_poll(W, true); break;
   case 1: op_log(W, pick_worker(W), false, 0); break;
   case 2: op_start_thread(W); break;
